@@ -692,11 +692,16 @@ impl Campaign for FirstEmitRace {
             let n = case.threads as usize;
             let barrier = std::sync::Barrier::new(n);
             let per = case.per_thread as usize;
+            // the original handle goes away first; the clones are dropped by their threads at the same
+            // moment (end barrier): the *last* drops race with each other
+            let clones: Vec<QueuingMetricSink> = (0..n).map(|_| q.clone()).collect();
+            drop(q);
+            let end = std::sync::Barrier::new(n);
             let acked: Vec<Vec<String>> = thread::scope(|s| {
                 let mut hs = Vec::new();
-                for t in 0..n {
-                    let h = q.clone();
+                for (t, h) in clones.into_iter().enumerate() {
                     let barrier = &barrier;
+                    let end = &end;
                     hs.push(s.spawn(move || {
                         // everything is prepared before the barrier so that the first emits collide
                         let metrics: Vec<String> = (0..per).map(|i| format!("p{}s{}:1|c", t, i)).collect();
@@ -708,13 +713,13 @@ impl Campaign for FirstEmitRace {
                                 acked.push(m);
                             }
                         }
+                        end.wait();
                         drop(h);
                         acked
                     }));
                 }
                 hs.into_iter().map(|h| h.join().unwrap_or_default()).collect()
             });
-            drop(q);
             let total: usize = acked.iter().map(|a| a.len()).sum();
             if !gate.wait_until(w, |g| g.exited >= total) {
                 let got = gate.lock().exited;
@@ -1257,7 +1262,7 @@ impl Campaign for DropRace {
     fn strategy(&self, _tier: Tier) -> BoxedStrategy<DropRaceCase> {
         (
             prop_oneof![4 => Just(Some(0usize)), 2 => Just(Some(1usize)), 1 => Just(Some(2usize)), 1 => Just(None)],
-            2_000u32..6_000,
+            1_500u32..4_000,
             prop_oneof![3 => Just(0u8), 1 => 1u8..4],
             prop_oneof![Just(0u16), 1u16..400],
         )
@@ -1336,6 +1341,158 @@ impl Campaign for DropRace {
                 Some(_) => "fresh bounded sinks dropped at once",
                 None => "fresh unbounded sinks dropped at once",
             }],
+        }
+    }
+}
+
+// ---------------------------------------------------------------------------
+// C16: an error handler that itself emits into another queuing sink (a backup / alert
+// sink, as the library's docs suggest handlers may do "something" with the error). The
+// second sink's own handler must see each of *its* wrapped sink's failures exactly once,
+// although those metrics were emitted from inside a handler, on a worker thread.
+
+#[derive(Serialize, Deserialize, Clone, Debug)]
+pub struct HandlerChainCase {
+    /// outcome of the first wrapped sink for metric #i: pattern[i % len]
+    pub pattern: Vec<bool>,
+    pub metrics: u8,
+    /// the backup sink's wrapped sink fails every k-th metric it gets (1 = all)
+    pub backup_fail_every: u8,
+}
+
+struct ScriptErr {
+    fail: Box<dyn Fn(usize) -> bool + Send + Sync>,
+    seen: std::sync::atomic::AtomicUsize,
+    failed: Arc<std::sync::atomic::AtomicUsize>,
+    got: Arc<std::sync::atomic::AtomicUsize>,
+}
+
+impl std::panic::RefUnwindSafe for ScriptErr {}
+
+impl MetricSink for ScriptErr {
+    fn emit(&self, metric: &str) -> std::io::Result<usize> {
+        let i = self.seen.fetch_add(1, Ordering::SeqCst);
+        self.got.fetch_add(1, Ordering::SeqCst);
+        if (self.fail)(i) {
+            self.failed.fetch_add(1, Ordering::SeqCst);
+            Err(std::io::Error::new(std::io::ErrorKind::BrokenPipe, format!("scripted failure #{}", i)))
+        } else {
+            Ok(metric.len())
+        }
+    }
+}
+
+struct SendSink(QueuingMetricSink);
+impl std::panic::RefUnwindSafe for SendSink {}
+
+pub struct HandlerChain;
+
+impl Campaign for HandlerChain {
+    type Case = HandlerChainCase;
+    fn name(&self) -> &'static str {
+        "queue-handler-forwarding"
+    }
+    fn max_shrink_iters(&self) -> u32 {
+        40
+    }
+    fn strategy(&self, _tier: Tier) -> BoxedStrategy<HandlerChainCase> {
+        (prop::collection::vec(any::<bool>(), 1..6), 1u8..40, 1u8..4)
+            .prop_map(|(pattern, metrics, backup_fail_every)| HandlerChainCase {
+                pattern,
+                metrics,
+                backup_fail_every,
+            })
+            .boxed()
+    }
+    fn check(&self, case: &HandlerChainCase, ctx: &Ctx) -> Outcome {
+        let w = ctx.w();
+        let cnt = || Arc::new(std::sync::atomic::AtomicUsize::new(0));
+        let (f1, g1, f2, g2, h1, h2) = (cnt(), cnt(), cnt(), cnt(), cnt(), cnt());
+        let k = case.backup_fail_every.max(1) as usize;
+        let backup_sink = ScriptErr {
+            fail: Box::new(move |i| (i + 1) % k == 0),
+            seen: std::sync::atomic::AtomicUsize::new(0),
+            failed: f2.clone(),
+            got: g2.clone(),
+        };
+        let h2c = h2.clone();
+        let backup = QueuingMetricSink::builder()
+            .with_error_handler(move |_e| {
+                h2c.fetch_add(1, Ordering::SeqCst);
+            })
+            .build(backup_sink);
+        let pat = case.pattern.clone();
+        let first_sink = ScriptErr {
+            fail: Box::new(move |i| pat[i % pat.len()]),
+            seen: std::sync::atomic::AtomicUsize::new(0),
+            failed: f1.clone(),
+            got: g1.clone(),
+        };
+        let h1c = h1.clone();
+        let fwd = SendSink(backup.clone());
+        let backup_refused = cnt();
+        let br = backup_refused.clone();
+        let q = QueuingMetricSink::builder()
+            .with_error_handler(move |_e| {
+                h1c.fetch_add(1, Ordering::SeqCst);
+                // report the failure through the backup sink
+                if fwd.0.emit("primary.failed:1|c").is_err() {
+                    br.fetch_add(1, Ordering::SeqCst);
+                }
+            })
+            .build(first_sink);
+        let n = case.metrics as usize;
+        let mut bad: Vec<String> = Vec::new();
+        for i in 0..n {
+            if let Err(e) = q.emit(&format!("m{}:1|c", i)) {
+                bad.push(format!("emit into an unbounded queuing sink failed: {}", e));
+                break;
+            }
+        }
+        let expect_f1 = (0..n).filter(|i| case.pattern[i % case.pattern.len()]).count();
+        let expect_f2 = expect_f1 / k;
+        let deadline = Instant::now() + w;
+        let settled = |g1: &Arc<std::sync::atomic::AtomicUsize>, g2: &Arc<std::sync::atomic::AtomicUsize>, h1: &Arc<std::sync::atomic::AtomicUsize>, h2: &Arc<std::sync::atomic::AtomicUsize>| {
+            g1.load(Ordering::SeqCst) >= n && h1.load(Ordering::SeqCst) >= expect_f1 && g2.load(Ordering::SeqCst) >= expect_f1 && h2.load(Ordering::SeqCst) >= expect_f2
+        };
+        while !settled(&g1, &g2, &h1, &h2) && Instant::now() < deadline {
+            thread::sleep(Duration::from_micros(300));
+        }
+        thread::sleep(Duration::from_millis(2));
+        let (vf1, vh1, vg2, vf2, vh2) = (
+            f1.load(Ordering::SeqCst),
+            h1.load(Ordering::SeqCst),
+            g2.load(Ordering::SeqCst),
+            f2.load(Ordering::SeqCst),
+            h2.load(Ordering::SeqCst),
+        );
+        if bad.is_empty() {
+            if vh1 != vf1 {
+                bad.push(format!("the first wrapped sink failed {} times but its error handler was invoked {} times", vf1, vh1));
+            } else if backup_refused.load(Ordering::SeqCst) > 0 {
+                bad.push(format!(
+                    "{} emits made by the first sink's error handler into the (unbounded) backup queuing sink were refused",
+                    backup_refused.load(Ordering::SeqCst)
+                ));
+            } else if vg2 != vh1 {
+                bad.push(format!("the error handler forwarded {} metrics to the backup queuing sink but its wrapped sink got {} within {:?}", vh1, vg2, w));
+            } else if vh2 != vf2 {
+                bad.push(format!(
+                    "the backup sink's wrapped sink failed {} times (for metrics emitted from inside the first sink's error handler) but the backup sink's own error handler was invoked {} times",
+                    vf2, vh2
+                ));
+            }
+        }
+        drop(q);
+        drop(backup);
+        Outcome {
+            verdict: match bad.iter().find(|b| !crate::known::absorb(ctx.property, b)) {
+                None => Ok(()),
+                Some(b) => Err(b.clone()),
+            },
+            nontrivial: expect_f1 >= 1 && expect_f2 >= 1,
+            fingerprint: util::hash_json(case),
+            classes: vec!["error handler that emits into a second queuing sink with its own handler"],
         }
     }
 }
